@@ -100,7 +100,24 @@ def evaluate(facts, R):
         k = _as_int(st_.get(COUNT)) or 0
         outs = [("Err", ready(("variant", "Err", ((0, ("const", "ACCEPT_ERROR")),)))), ("Pending", PENDING)]
         if k < BUDGET:
-            outs = [("Some:conn#%d" % k, ready(("variant", "Ok", ((0, some(("const", "conn#%d" % k))),)))), ("None", ready(("variant", "Ok", ((0, NONE),))))] + outs
+            # the payload of a step: Option<conn> - or a private two-variant enum saying the same (one variant carrying the
+            # connection, one carrying nothing), read off the declared return type
+            conn = ("const", "conn#%d" % k)
+            got, nothing = some(conn), NONE
+            try:
+                ty = ev.fn.locals[t["dest"]["l"]]
+            except Exception:
+                ty = ""
+            m = re.search(r"Result<([\w:]+)<", ty)
+            if m and not m.group(1).endswith("option::Option"):
+                a = facts.adts.get(m.group(1)) or facts.adts.get(norm(m.group(1)))
+                vs = a["variants"] if a else []
+                one = [v for v in vs if len(v["fields"]) == 1]
+                zero = [v for v in vs if len(v["fields"]) == 0]
+                if len(vs) != 2 or len(one) != 1 or len(zero) != 1:
+                    return False
+                got, nothing = ("variant", one[0]["name"], ((0, conn),)), ("variant", zero[0]["name"], ())
+            outs = [("Some:conn#%d" % k, ready(("variant", "Ok", ((0, got),)))), ("None", ready(("variant", "Ok", ((0, nothing),))))] + outs
         alts = []
         for nm, val in outs:
             s2 = dict(st_)
